@@ -1165,4 +1165,4 @@ def run(ctx):
     ctx.floor_counters = {"statements_bound": 8000, "statements_with_template_tokens_in_place": 6000, "placeholders_read_as_one_term": 10000,
                           "leaf_literals_compared_with_prepared_bytes": 20000, "statements_with_nested_parameters": 2000,
                           "named_statements": 2000, "positional_statements": 2000, "statements_fully_agreeing": 5000,
-                          "decimal_literals_judged": 500}
+                          "decimal_literals_judged": 500, "heterogeneous_collections_judged": 2000}
